@@ -41,7 +41,10 @@ def main():
             if c not in seen:
                 seen.append(c)
         cps = seen
-        run_cmd = runs[0].replace(orig_repo, w) if runs else None
+        pref = [r for r in runs if " go run " in " " + r or "go run " in r or re.search(r"go test .*-run", r)]
+        run_cmd = (pref[0] if pref else (runs[0] if runs else None))
+        if run_cmd:
+            run_cmd = re.sub(r"\s*;\s*echo .*$", "", run_cmd).replace(orig_repo, w)
         cwd_line = [l.strip() for l in readme.split("\n") if re.match(r"\s*cd /tmp/mut-", l)]
         cwd = cwd_line[0].split(" ", 1)[1].replace(orig_repo, w) if cwd_line else w
         if not run_cmd:
